@@ -73,8 +73,7 @@ def wccn_run(ck, name, n, dm, data, parts, labs, sperms, dev=(), invariants=WCCN
                  invariants=invariants, constraints=["Export"] if export else [])
     r = tlc.run(ck.work, "MC_Wccn", cfg, root_text=text, workers=16, coverage=coverage,
                 expect_violation=expect_violation)
-    ck.account(name, r, expect_violation=expect_violation)
-    return r.records
+    return _accounted(ck, name, r, expect_violation)
 
 
 def whit_run(ck, name, n, dm, data, dev=(), export=True, expect_violation=False, coverage=False):
@@ -84,7 +83,19 @@ def whit_run(ck, name, n, dm, data, dev=(), export=True, expect_violation=False,
                  invariants=WHIT_INV, constraints=["Export"] if export else [])
     r = tlc.run(ck.work, "MC_Whitening", cfg, root_text=text, workers=16, coverage=coverage,
                 expect_violation=expect_violation)
+    return _accounted(ck, name, r, expect_violation)
+
+
+def _accounted(ck, name, r, expect_violation):
+    # TLC can report an evaluation error (e.g. a Java StackOverflowError while computing initial states) and
+    # still exit 0 with a truncated state space: never a verdict
+    if r.violation is None and "Error:" in r.stdout:
+        i = r.stdout.find("Error:")
+        raise tlc.MachineryError("TLC reported an error in run %s:\n%s" % (name, r.stdout[i:i + 600]))
     ck.account(name, r, expect_violation=expect_violation)
+    never = [a for a, (d, t) in r.coverage.items() if t == 0 and a not in ("Init", "Export")]
+    if never and not expect_violation:
+        raise tlc.MachineryError("run %s: actions never taken: %s" % (name, never))
     return r.records
 
 
